@@ -123,6 +123,20 @@ def candidates():
             # H: casts
             if "static_cast<NumericType>(" in l and not is_unit:
                 yield ("H", rel, i, l.replace("static_cast<NumericType>(", "static_cast<float>(", 1), "cast to float instead of NumericType")
+            # I: default template arguments: X<NumericType> -> X<> (= X<double>) inside expressions
+            if not is_unit and "<NumericType>" in l and not l.strip().startswith(("template", "class", "struct", "using", "friend", "explicit", "constexpr", "inline", "[[")):
+                for m in re.finditer(r"\b(Vector|PlanarVector|SymmetricDyad|Dyad)<NumericType>", l):
+                    yield ("I", rel, i, l[:m.start()] + m.group(1) + "<>" + l[m.end():], "%s<NumericType> -> %s<> at col %d" % (m.group(1), m.group(1), m.start()))
+            # J: a by-value arithmetic parameter of a mutating member becomes a const reference
+            if not is_unit and re.search(r"\boperator[*/+-]=\(const (NumericType|OtherNumericType) \w+\)", l):
+                yield ("J", rel, i, re.sub(r"\(const (NumericType|OtherNumericType) (\w+)\)", r"(const \1& \2)", l, 1), "scalar operand by const reference")
+            # K: a const local becomes a function-local static
+            if not is_unit and re.match(r"\s+const (NumericType|float|double|long double) \w+\{", l):
+                yield ("K", rel, i, re.sub(r"^(\s+)const ", r"\1static const ", l, 1), "const local -> static const local")
+            # L: explicit unit template arguments of ConvertStatically swapped
+            m = re.search(r"ConvertStatically<(\w[\w:]*), (\w[\w:<>]*), (\w[\w:<>]*)>", l)
+            if m and m.group(2) != m.group(3):
+                yield ("L", rel, i, l[:m.start()] + "ConvertStatically<%s, %s, %s>" % (m.group(1), m.group(3), m.group(2)) + l[m.end():], "ConvertStatically unit arguments swapped")
             # G: small integer constants in models / relations
             if not is_unit:
                 for m in re.finditer(r"static_cast<(?:NumericType|float|double|long double)>\((\d)\)", l):
